@@ -181,7 +181,7 @@ theorem g2_raiseSig (st : St) (s : Int) : G2 st (raiseSig st s) := by
   · split
     · exact G2.of_eq rfl rfl
     · split
-      · exact G2.of_eq rfl rfl
+      · unfold sigRecord; split <;> first | exact G2.of_eq rfl rfl | exact G2.refl _
       · split
         · exact G2.of_eq rfl rfl
         · exact G2.refl st
@@ -913,7 +913,9 @@ theorem g2_pollTimeout (st : St) (t : Option Int) : G2 st (pollTimeout st t) := 
   · exact G2.of_eq rfl rfl
   · exact G2.refl _
 
-theorem g2_deliverPending (st : St) : G2 st (deliverPending st) := G2.of_eq rfl rfl
+theorem g2_deliverPending (st : St) : G2 st (deliverPending st) := by
+  unfold deliverPending
+  split <;> exact G2.of_eq rfl rfl
 
 theorem g2_ppoll (st : St) (t : Option Int) : G2 st (ppoll st t).1 := by
   unfold ppoll
